@@ -202,7 +202,13 @@ type Scenario struct {
 	// Rendezvous (Pipeline): the second-stage producers g(b) send their first item only after g has been
 	// called for every b: they make progress only if all second-stage streams are open at the same time
 	Rendezvous bool
-	Seed       int64
+	// EarlyProducers: producers (and closers) run BEFORE the combinator is called, so buffered inputs are
+	// already full and producers are parked on their next send when the derived function starts
+	EarlyProducers bool
+	// TwoRuns (Pipeline): the composed pipeline is invoked twice (inputs 0 and 1); the second output is
+	// consumed only after the first one was closed
+	TwoRuns bool
+	Seed    int64
 }
 
 func (s Scenario) class() string {
@@ -274,8 +280,8 @@ func runScenario(cb *Comb, sc Scenario) (res scenResult) {
 		}
 	}
 	var outs []<-chan int
-	pipelineWant := map[int]bool{}
-	var clientWG sync.WaitGroup // producers, closers, carrier
+	pipelineWant := map[int]int{} // item id -> index of the output it must appear on
+	var clientWG sync.WaitGroup   // producers, closers, carrier
 	startClients := func() {
 		// producers
 		prodDone := make([]*sync.WaitGroup, sc.NIn)
@@ -336,94 +342,172 @@ func runScenario(cb *Comb, sc Scenario) (res scenResult) {
 			closeOuter()
 		}()
 	}
-	switch {
-	case cb.Fmap != nil:
-		outs = []<-chan int{cb.Fmap(ins[0])}
-	case cb.Dup != nil:
-		a, b := cb.Dup(ins[0])
-		outs = []<-chan int{a, b}
-	case cb.DupB != nil:
-		a, b := cb.DupB(ins[0])
-		outs = []<-chan int{a, b}
-	case cb.JoinChanR != nil:
-		outer := make(chan (<-chan int), sc.CarrierCap)
-		outs = []<-chan int{cb.JoinChanR(outer)}
-		carrier(func(c <-chan int) { outer <- c }, func() { close(outer) })
-	case cb.JoinChanB != nil:
-		outer := make(chan (<-chan int), sc.CarrierCap)
-		outs = []<-chan int{cb.JoinChanB(outer)}
-		carrier(func(c <-chan int) { outer <- c }, func() { close(outer) })
-	case cb.JoinSliceR != nil:
-		rs := make([]<-chan int, len(ins))
-		for i := range ins {
-			rs[i] = ins[i]
-		}
-		outs = []<-chan int{cb.JoinSliceR(rs)}
-	case cb.JoinSliceB != nil:
-		outs = []<-chan int{cb.JoinSliceB(ins)}
-	case cb.JoinVar2 != nil:
-		outs = []<-chan int{cb.JoinVar2(ins[0], ins[1])}
-	case cb.JoinVar2R != nil:
-		outs = []<-chan int{cb.JoinVar2R(ins[0], ins[1])}
-	case cb.JoinVar3 != nil:
-		outs = []<-chan int{cb.JoinVar3(ins[0], ins[1], ins[2])}
-	case cb.JoinVarN != nil:
-		outs = []<-chan int{cb.JoinVarN(ins)}
-	case cb.Pipeline != nil:
-		// f(a) streams the items of input 0 (fed by the producers); g(b) streams Items[1] items per b
-		per := 0
-		if len(sc.Items) > 1 {
-			per = sc.Items[1]
-		}
-		f := func(a int) <-chan int { return ins[0] }
-		var gCalled int32
-		allCalled := make(chan struct{})
-		if !sc.Rendezvous || sc.Items[0] == 0 {
-			close(allCalled)
-		}
-		g := func(b int) <-chan int {
-			c := make(chan int, sc.Cap)
-			if sc.Rendezvous && int(atomic.AddInt32(&gCalled, 1)) == sc.Items[0] {
+	invoke := func() {
+		switch {
+		case cb.Fmap != nil:
+			outs = []<-chan int{cb.Fmap(ins[0])}
+		case cb.Dup != nil:
+			a, b := cb.Dup(ins[0])
+			outs = []<-chan int{a, b}
+		case cb.DupB != nil:
+			a, b := cb.DupB(ins[0])
+			outs = []<-chan int{a, b}
+		case cb.JoinChanR != nil:
+			outer := make(chan (<-chan int), sc.CarrierCap)
+			outs = []<-chan int{cb.JoinChanR(outer)}
+			carrier(func(c <-chan int) { outer <- c }, func() { close(outer) })
+		case cb.JoinChanB != nil:
+			outer := make(chan (<-chan int), sc.CarrierCap)
+			outs = []<-chan int{cb.JoinChanB(outer)}
+			carrier(func(c <-chan int) { outer <- c }, func() { close(outer) })
+		case cb.JoinSliceR != nil:
+			rs := make([]<-chan int, len(ins))
+			for i := range ins {
+				rs[i] = ins[i]
+			}
+			outs = []<-chan int{cb.JoinSliceR(rs)}
+		case cb.JoinSliceB != nil:
+			outs = []<-chan int{cb.JoinSliceB(ins)}
+		case cb.JoinVar2 != nil:
+			outs = []<-chan int{cb.JoinVar2(ins[0], ins[1])}
+		case cb.JoinVar2R != nil:
+			outs = []<-chan int{cb.JoinVar2R(ins[0], ins[1])}
+		case cb.JoinVar3 != nil:
+			outs = []<-chan int{cb.JoinVar3(ins[0], ins[1], ins[2])}
+		case cb.JoinVarN != nil:
+			outs = []<-chan int{cb.JoinVarN(ins)}
+		case cb.Pipeline != nil:
+			// f(a) streams the items of input 0 (fed by the producers); g(b) streams Items[1] items per b
+			per := 0
+			if len(sc.Items) > 1 {
+				per = sc.Items[1]
+			}
+			f := func(a int) <-chan int {
+				if a == 8 {
+					return ins[1]
+				}
+				return ins[0]
+			}
+			var gCalled int32
+			allCalled := make(chan struct{})
+			if !sc.Rendezvous || sc.Items[0] == 0 {
 				close(allCalled)
 			}
-			clientWG.Add(1)
-			go func() {
-				defer clientWG.Done()
-				r := rand.New(rand.NewSource(sc.Seed*313 + int64(b)))
-				var evs []Ev
-				<-allCalled
-				for k := 0; k < per; k++ {
-					perturb(r)
-					id := b*100 + k
-					t0 := tick()
-					c <- id
-					evs = append(evs, Ev{Call: t0, Ret: tick(), Kind: "send", Ch: 1000 + b, ID: id, Proc: 500 + b%400})
+			g := func(b int) <-chan int {
+				c := make(chan int, sc.Cap)
+				if sc.Rendezvous && int(atomic.AddInt32(&gCalled, 1)) == sc.Items[0] {
+					close(allCalled)
 				}
-				t0 := tick()
-				close(c)
-				evs = append(evs, Ev{Call: t0, Ret: tick(), Kind: "close", Ch: 1000 + b, Proc: 500 + b%400})
-				record(evs)
-			}()
-			return c
-		}
-		for p := 0; p < sc.Producers; p++ {
-			for k := p; k < sc.Items[0]; k += sc.Producers {
-				for j := 0; j < per; j++ {
-					pipelineWant[itemID(0, p, k)*100+j] = true
+				clientWG.Add(1)
+				go func() {
+					defer clientWG.Done()
+					r := rand.New(rand.NewSource(sc.Seed*313 + int64(b)))
+					var evs []Ev
+					<-allCalled
+					for k := 0; k < per; k++ {
+						perturb(r)
+						id := b*100 + k
+						t0 := tick()
+						c <- id
+						evs = append(evs, Ev{Call: t0, Ret: tick(), Kind: "send", Ch: 1000 + b, ID: id, Proc: 500 + b%400})
+					}
+					t0 := tick()
+					close(c)
+					evs = append(evs, Ev{Call: t0, Ret: tick(), Kind: "close", Ch: 1000 + b, Proc: 500 + b%400})
+					record(evs)
+				}()
+				return c
+			}
+			for i := range ins {
+				for p := 0; p < sc.Producers; p++ {
+					for k := p; k < sc.Items[i]; k += sc.Producers {
+						for j := 0; j < per; j++ {
+							pipelineWant[itemID(i, p, k)*100+j] = i
+						}
+					}
 				}
 			}
+			composed := cb.Pipeline(f, g)
+			outs = []<-chan int{composed(7)}
+			if sc.TwoRuns {
+				outs = append(outs, composed(8))
+			}
 		}
-		outs = []<-chan int{cb.Pipeline(f, g)(7)}
 	}
-	startClients()
+	if sc.EarlyProducers {
+		startClients()
+		// let the producers get ahead: buffers full (or every producer parked on an unbuffered send)
+		for spin := 0; spin < 300; spin++ {
+			full := true
+			for i := range ins {
+				if !preclosed[i] && len(ins[i]) < cap(ins[i]) && len(ins[i]) < sc.Items[i] {
+					full = false
+				}
+			}
+			if full && spin > 20 {
+				break
+			}
+			runtime.Gosched()
+		}
+	}
+	// the derived function is called on a goroutine of its own: a call that never returns is a verdict,
+	// not a hang of the monitor
+	invoked := make(chan struct{})
+	var invokePanic any
+	go func() {
+		defer close(invoked)
+		defer func() { invokePanic = recover() }()
+		invoke()
+	}()
+	select {
+	case <-invoked:
+		if invokePanic != nil {
+			panic(invokePanic)
+		}
+	case <-time.After(10 * time.Second):
+		a := derivedGoroutines()
+		time.Sleep(300 * time.Millisecond)
+		b := derivedGoroutines()
+		ida := map[string]bool{}
+		for _, g := range a {
+			ida[g.ID] = true
+		}
+		all := len(b) > 0
+		var st []string
+		for _, g := range b {
+			st = append(st, "goroutine "+g.ID+" ["+g.State+"]")
+			if !ida[g.ID] || !blockedState(g.State) {
+				all = false
+			}
+		}
+		if all {
+			res.viol = append(res.viol, fmt.Sprintf("deadlock: the call of the derived function did not return; goroutines in derived code: %v", st))
+		} else {
+			res.incon = "watchdog fired while calling the derived function, but its goroutines are not provably blocked: " + strings.Join(st, ", ")
+		}
+		mu.Lock()
+		res.hist = append([]Ev{}, hist...)
+		mu.Unlock()
+		return res
+	}
+	if !sc.EarlyProducers {
+		startClients()
+	}
 	res.outs = len(outs)
 	// consumers
 	done := make(chan struct{})
+	firstDone := make(chan struct{})
 	var cwg sync.WaitGroup
 	for oi, o := range outs {
 		cwg.Add(1)
 		go func(oi int, o <-chan int) {
 			defer cwg.Done()
+			if oi == 0 {
+				defer close(firstDone)
+			}
+			if sc.TwoRuns && oi == 1 {
+				<-firstDone
+			}
 			r := rand.New(rand.NewSource(sc.Seed*71 + int64(oi)))
 			var evs []Ev
 			for {
@@ -495,7 +579,7 @@ func runScenario(cb *Comb, sc Scenario) (res scenResult) {
 }
 
 // checkHistory runs the sequence oracles: conservation / exactly-once, order, close.
-func checkHistory(cb *Comb, sc Scenario, hist []Ev, nouts int, pipelineWant map[int]bool) []string {
+func checkHistory(cb *Comb, sc Scenario, hist []Ev, nouts int, pipelineWant map[int]int) []string {
 	var viol []string
 	sent := map[int]bool{}
 	var lastCloseCall int64
@@ -516,9 +600,6 @@ func checkHistory(cb *Comb, sc Scenario, hist []Ev, nouts int, pipelineWant map[
 		}
 	}
 	want := sent
-	if cb.Pipeline != nil {
-		want = pipelineWant
-	}
 	if cb.Fmap != nil {
 		// the mapped function adds FmapShift (taken off again where the receive is recorded) and must
 		// have been applied exactly once per item
@@ -527,6 +608,14 @@ func checkHistory(cb *Comb, sc Scenario, hist []Ev, nouts int, pipelineWant map[
 		}
 	}
 	for o := 0; o < nouts; o++ {
+		if cb.Pipeline != nil {
+			want = map[int]bool{}
+			for id, on := range pipelineWant {
+				if on == o {
+					want[id] = true
+				}
+			}
+		}
 		var seq []Ev
 		var closedEv *Ev
 		nclosed := 0
@@ -626,6 +715,10 @@ func scenariosFor(cb *Comb, seed int64, n int) []Scenario {
 				sc.Items = []int{2 + r.Intn(3), 1 + r.Intn(3)}
 				sc.Rendezvous = true
 			}
+			if len(out)%5 == 1 {
+				sc.NIn, sc.TwoRuns, sc.Rendezvous = 2, true, false
+				sc.Items = []int{1 + r.Intn(3), 1 + r.Intn(3)}
+			}
 		}
 		sc.Cap = r.Intn(3)
 		sc.CarrierCap = r.Intn(3)
@@ -637,6 +730,7 @@ func scenariosFor(cb *Comb, seed int64, n int) []Scenario {
 		sc.Slow = r.Intn(3)
 		sc.Procs = []int{1, 2, 4, 16}[r.Intn(4)]
 		sc.PreClosed = r.Intn(4) == 0
+		sc.EarlyProducers = len(out)%3 == 2
 		if r.Intn(12) == 0 && cb.Pipeline == nil && sc.NIn > 0 {
 			// a deeper configuration: many items
 			for i := range sc.Items {
